@@ -184,6 +184,11 @@ def call_builtin(E, st, name, args, kwargs, node=None):
         a, n = args[0], args[1]
         cn = _const_str(n.t) if n.kind.tag == "str" else None
         if cn is None:
+            if len(args) == 2 and a.kind.tag == "ref":
+                # getattr(obj, <run-time name>): some attribute of an object the library knows nothing about -- an
+                # opaque callable (what calling it does is the business of the spec's opaque hook)
+                E.trusted.add("getattr(obj, name) with a run-time name is taken to find the attribute (no AttributeError)")
+                return ok(st, V(Kind("fn"), ("opaque", ("getattr", a, n))))
             raise Unsupported("getattr with symbolic name")
         return E.getattr_(st, a, cn)
     if name == "type":
